@@ -19,8 +19,22 @@ const (
 	Inv256 = mldsa.VerifInv256
 )
 
-// Par returns the parameter set 44 / 65 / 87.
-func Par(inst int) *Params {
+// Par returns the parameter set 44 / 65 / 87 for the seam functions (its type is unexported in tink; the shim names it).
+func Par(inst int) *Params { return mldsa.VerifPar(inst) }
+
+// API is the EXPORTED method set of a parameter set (mldsa.MLDSA44 / 65 / 87) as far as the harness uses it. The
+// parameter type itself is unexported; the interface lets the API-level sections run without naming it, i.e. also
+// when the export shim is replaced by its stub.
+type API interface {
+	KeyGenFromSeed(seed [mldsa.SecretKeySeedSize]byte) (*mldsa.PublicKey, *mldsa.SecretKey)
+	PublicKeyLength() int
+	SecretKeyLength() int
+	DecodePublicKey(pkEnc []byte) (*mldsa.PublicKey, error)
+	DecodeSecretKey(skEnc []byte) (*mldsa.SecretKey, error)
+}
+
+// APIOf returns the parameter set 44 / 65 / 87 through exported names only.
+func APIOf(inst int) API {
 	switch inst {
 	case 44:
 		return mldsa.MLDSA44
